@@ -3,6 +3,8 @@ package main
 import (
 	"bytes"
 	"fmt"
+	"github.com/ldclabs/cose/key/ecdsa"
+	"github.com/ldclabs/cose/key/ed25519"
 	"sync"
 	"time"
 
@@ -325,6 +327,64 @@ func streamConc(c *ctx) {
 			c.evals += G
 			c.distinct["conc|"+name] = true
 			mu.Unlock()
+		}
+	}
+	// ---- a shared PUBLIC key without a key id (a compressed key, a peer's key): the factories only read it
+	for _, alg := range []int{-7, -35, -36, -8} {
+		name := fmt.Sprintf("shared public key without kid alg=%d", alg)
+		for round := 0; round < c.n(10, 100); round++ {
+			k, err := genKeyFor(alg)
+			if err != nil {
+				break
+			}
+			var pub key.Key
+			if alg == -8 {
+				pub, err = ed25519.ToPublicKey(k)
+			} else if round%2 == 0 {
+				pub, err = ecdsa.ToPublicKey(k)
+			} else {
+				pub, err = ecdsa.ToCompressedKey(k)
+			}
+			if err != nil {
+				break
+			}
+			pub = cloneKey(pub)
+			delete(pub, iana.KeyParameterKid)
+			before := qMap(pub)
+			s, serr := k.Signer()
+			if serr != nil {
+				break
+			}
+			sig, _ := s.Sign([]byte("m"))
+			start := make(chan struct{})
+			var wg sync.WaitGroup
+			for g := 0; g < G; g++ {
+				wg.Add(1)
+				go func(g int) {
+					defer wg.Done()
+					defer func() {
+						if r := recover(); r != nil {
+							fail("conc-panic", "a concurrent call panicked", name, r, "a result")
+						}
+					}()
+					<-start
+					v, err := pub.Verifier()
+					if err != nil || v.Verify([]byte("m"), sig) != nil {
+						fail("conc", "a verifier obtained from a shared public key does not verify", name, err, "valid")
+					}
+					pub.Kid()
+					pub.Alg()
+				}(g)
+			}
+			close(start)
+			wg.Wait()
+			mu.Lock()
+			c.evals += G
+			c.distinct["conc|"+name] = true
+			mu.Unlock()
+			if qMap(pub) != before {
+				fail("conc", "obtaining verifiers from a shared public key changed the key", name+" "+before, qMap(pub), "unchanged")
+			}
 		}
 	}
 	// ---- ECDH: one shared object per curve
